@@ -1,7 +1,10 @@
-//! Driver for libp2p-autonat v2 (extension component X05).
+//! Driver for libp2p-autonat v2 (extension component X05): the dial-back server (and client).
+mod server;
+
 fn main() {
     let a = vcommon::Args::parse();
     match a.mode.as_str() {
+        "server" => server::main(&a),
         m => {
             eprintln!("unknown mode {m}");
             std::process::exit(2)
